@@ -1679,6 +1679,21 @@ class Interp:
         if isinstance(recv, VObj) and self.st.heap[recv.loc].cls == '__strdict__':
             if name == 'keys':
                 return recv
+            if name == 'update':
+                cell = self.st.heap[recv.loc]
+                if args:
+                    src = args[0]
+                    if not (isinstance(src, VObj) and self.st.heap[src.loc].cls == '__strdict__'):
+                        raise Unsupported('dict.update with this argument')
+                    for k, v in self.st.heap[src.loc].fields.items():
+                        cell = cell.with_field(k, v)
+                for k, v in kwargs.items():
+                    if k != '**':
+                        cell = cell.with_field(k, v)
+                self.st.heap[recv.loc] = cell          # in place: every alias of the dict sees it
+                return NONE
+            if name == 'copy':
+                return self.st.new_obj('__strdict__', dict(self.st.heap[recv.loc].fields))
             raise Unsupported('method %s of a string-keyed dict' % name)
         if isinstance(recv, VObj):
             h = self.summaries.get(self.st.heap[recv.loc].cls + '.' + name)
